@@ -39,6 +39,7 @@ pub fn with_scenario<V: Visitor>(name: &str, v: V) -> Option<V::Out> {
 		"c04_history" => v.visit(&c04::C04History),
 		"c04_native" => v.visit(&c04::C04Native),
 		"c07_m1" => v.visit(&c07::C07M1),
+		"c07_m2" => v.visit(&c07::C07M2),
 		"c16_history" => v.visit(&c16::C16),
 		"c18_gc" => v.visit(&c18::C18Gc),
 		"c18_intern" => v.visit(&c18::C18Intern),
@@ -59,7 +60,7 @@ pub fn scenarios_of(property: &str) -> Vec<(&'static str, u64, u64)> {
 	match property {
 		"C03" => vec![("c03_demand", 60_000, 4_000_000)],
 		"C04" => vec![("c04_sweep", 1_500, 100_000), ("c04_history", 15_000, 1_500_000), ("c04_native", 250, 10_000)],
-		"C07" => vec![("c07_m1", 40_000, 3_000_000)],
+		"C07" => vec![("c07_m1", 40_000, 3_000_000), ("c07_m2", 2_500, 150_000)],
 		"C16" => vec![("c16_history", 30_000, 2_000_000)],
 		"C18" => vec![
 			("c18_gc", 12_000, 600_000),
@@ -607,4 +608,27 @@ fn miri_interner(seed: u64) -> Value {
 		}
 		Err(e) => json!({"ran": false, "error": e.to_string()}),
 	}
+}
+
+struct ShowLog {
+	seed: u64,
+	run: u64,
+	tier: Tier,
+}
+impl Visitor for ShowLog {
+	type Out = i32;
+	fn visit<S: Scenario>(self, s: &S) -> i32 {
+		let plan = plan_for(s, self.seed, self.run, self.tier);
+		println!("plan: {}", serde_json::to_string(&plan).unwrap_or_default());
+		let out = run_one(s, &plan, true, false);
+		for l in &out.log {
+			println!("{l}");
+		}
+		println!("digest: {}", out.digest_hex);
+		0
+	}
+}
+/// Debug aid: print the event log of one run
+pub fn show_log(scenario: &str, seed: u64, run: u64, tier: Tier) -> i32 {
+	with_scenario(scenario, ShowLog { seed, run, tier }).unwrap_or(2)
 }
